@@ -105,7 +105,7 @@ def sim_cases(draw, n_markets=(1, 3), index_prob=2, vol_zero=None, ticks=TICKS, 
               hft=True, builtin=False, n_sessions=(1, 3), steps=(1, 8), placement=None, execution=None, caps=(0, 4),
               hcaps=(0, 3), rates=(0.0, 1.0, 0.5), probes=True, spec=None, illegal=False, correlations=False,
               max_actions=5, horizon=25, decline_weight=1, always_events=False, cash=(1000, 10000.5, 1e6),
-              random_endowment=False):
+              random_endowment=False, rules=False):
     nm = draw(st.integers(*n_markets))
     names = [f"M{i}" for i in range(nm)]
     cfg: Dict[str, Any] = {"simulation": {"markets": list(names), "agents": [], "sessions": []}}
@@ -157,7 +157,24 @@ def sim_cases(draw, n_markets=(1, 3), index_prob=2, vol_zero=None, ticks=TICKS, 
                 evs.append(en)
             ses["events"] = evs
         cfg["simulation"]["sessions"].append(ses)
+    if rules and draw(st.booleans()):
+        # a shipped circuit breaker around the same traffic: fills that stop a market in the middle of a round
+        targets = draw(st.lists(st.sampled_from(names), min_size=1, max_size=len(names), unique=True))
+        cfg["HALT"] = {"class": "TradingHaltRule", "targetMarkets": targets, "triggerChangeRate": draw(st.sampled_from([0.002, 0.005, 0.01, 0.03])),
+                       "haltingTimeLength": draw(st.integers(0, 4))}
+        ses = cfg["simulation"]["sessions"][draw(st.integers(0, ns - 1))]
+        ses["events"] = list(ses.get("events", [])) + ["HALT"]
     return {"config": cfg, "seed": draw(st.integers(0, 2**31 - 1))}
+
+
+NAME_SCHEMES = [["M0", "M1", "M2", "M3"], ["M1", "M10", "M", "M11"], ["Spot", "Spot-1", "aSpot", "Spot-10"], ["m0", "M0", "M00", "M000"]]
+
+
+def market_names(draw, n):
+    """n distinct market names; three schemes in four make names prefixes / suffixes / case variants of one another (events,
+    index markets and agents refer to markets by exact name)."""
+    names = draw(st.sampled_from(NAME_SCHEMES))[:n]
+    return names[::-1] if draw(st.booleans()) else list(names)
 
 
 def jvalue(draw, const, lo, hi):
